@@ -749,29 +749,50 @@ def check_finite(ctx, model):
             if not ctx.thorough and len(positions) > 9:
                 idx = sorted(int(i) for i in rng.choice(len(positions) - 1, size=8, replace=False))
                 positions = [None] + [positions[1 + i] for i in idx]
-            for pos in positions:
-                val = [np.nan, np.inf, -np.inf][int(rng.integers(3))]
+            # every position once with a non-finite value and once with a FINITE value of large magnitude (squares and
+            # sums of squares overflow: float64 1e154..1.7e308, float32 1e19..3.4e38 with the variable cast to float32),
+            # and each variable once with every entry large
+            jobs = [(pos, "bad") for pos in positions] + [(pos, "big") for pos in positions[1:]] + [((sl, "all", 0), "big") for sl in slots]
+            for pos, kind in jobs:
+                f32 = kind == "big" and bool(rng.integers(2))
+                if kind == "bad":
+                    val = [np.nan, np.inf, -np.inf][int(rng.integers(3))]
+                elif f32:
+                    val = float(np.float32([1.5e19, -7e25, 3.0e38, -3.4e38][int(rng.integers(4))]))
+                else:
+                    val = [1.5e154, -1e200, 1.7e308, -1.79e308][int(rng.integers(4))]
                 saved = None
                 if pos is not None:
                     sl, b, i = pos
                     saved = get(sl)
+
+                    def plant(a, idx):
+                        a = a.astype(np.float32) if f32 else a
+                        return (snp.full(a.shape, val, dtype=a.dtype) if idx == "all" else a.reshape(-1).at[idx].set(val).reshape(a.shape))
+
                     if b is None:
-                        put(sl, saved.at[i].set(val))
+                        put(sl, plant(saved, i))
+                    elif b == "all":
+                        put(sl, snp.blockarray([plant(blk, "all") for blk in saved]) if isinstance(saved, BlockArray) else plant(saved, "all"))
                     else:
-                        blocks = [blk for blk in saved]
-                        blocks[b] = blocks[b].at[i].set(val)
+                        blocks = [(blk.astype(np.float32) if f32 else blk) for blk in saved]  # block arrays have one dtype
+                        blocks[b] = plant(blocks[b], i)
                         put(sl, snp.blockarray(blocks))
                 vs = [D.fin_struct(v) for v in D.working_vars(spec, s)]
                 impl = bool(s._working_vars_finite())
                 m = model.call("finite", vars=vs)
-                case = {"kind": "finite", "cls": cls, "block": block, "pos": None if pos is None else [pos[0][0], pos[0][1], pos[1], pos[2]], "vars": vs}
-                ctx.case(case, json.dumps([cls, block, case["pos"]]) if pos is not None else None, sample_every=100)
-                ctx.count(f"finite:{'block' if (pos and pos[1] is not None) else 'plain' if pos else 'clean'}")
-                if impl != m["fixed"]:
-                    kid = "nanstop-block" if impl == m["pinned"] else None
+                case = {"kind": "finite", "cls": cls, "block": block, "pos": None if pos is None else [pos[0][0], pos[0][1], pos[1], pos[2]],
+                        "planted": None if pos is None else val, "float32": f32, "vars": vs}
+                ctx.case(case, json.dumps([cls, block, case["pos"], kind, f32]) if pos is not None else None, sample_every=100)
+                ctx.count(f"finite:{'clean' if pos is None else ('large finite float32' if f32 else 'large finite float64') if kind == 'big' else 'block' if pos[1] is not None else 'plain'}")
+                # the statement itself: finite iff every entry of every working variable is finite
+                bad = any((not all(v["p"])) if "p" in v else any(not all(bb) for bb in v["b"]) for v in vs)
+                if impl != m["fixed"] or impl == bad:
+                    kid = "nanstop-block" if impl == m["pinned"] and kind == "bad" else None
                     ctx.disagree("driver.finite", case, impl, m["fixed"], known_id=kid,
-                                 oracle=lambda c, impl=impl: {"fails": "_working_vars_finite() returned %s although a working variable holds a non-finite value" % impl, **c}
-                                 if (impl and c["pos"] is not None) or (not impl and c["pos"] is None) else None)
+                                 oracle=lambda c, impl=impl, bad=bad: {"fails": "_working_vars_finite() returned %s although %s" % (
+                                     impl, "a working variable holds a non-finite value" if bad else "every entry of every working variable is finite"), **c}
+                                 if impl == bad else None)
                 if saved is not None:
                     put(pos[0], saved)
 
